@@ -42,6 +42,8 @@ inductive Fault (ε : Type) where
   | panic (s : Site)
   deriving DecidableEq, Repr
 
+deriving instance DecidableEq for Except
+
 abbrev Res (ε α : Type) := Except (Fault ε) α
 
 @[inline] def fail {ε α : Type} (e : ε) : Res ε α := .error (.err e)
